@@ -464,11 +464,62 @@ def fam_negotiation():
         note='plain enumeration of a finite set'))
 
 
+def fam_version_header():
+    """every response to a request whose version was accepted - success,
+    client error, unrouted path, undeclared method - names exactly the
+    version applied, once, also when earlier requests of the same process
+    used other versions (sequences of two requests)"""
+    kinds = [
+        ('GET', RP1), ('GET', '/resource_providers/' + U(99)),
+        ('GET', '/nothing/here'), ('GET', '/resource_providers/x/y/z'),
+        ('DELETE', '/resource_providers'),
+        ('GET', '/resource_providers?bogus=1'),
+        ('GET', '/usages?project_id=proj'), ('GET', '/'),
+        ('PUT', '/resource_providers/' + U(1)),
+    ]
+    versions = [(None, '1.0'), ('1.5', '1.5'), ('1.30', '1.30'),
+                ('latest', '1.39')]
+
+    def path(ctx):
+        app.setup()
+        with world(ctx) as w:
+            for step in range(2):
+                method, url = kinds[symex.choose(len(kinds))]
+                hv, want = versions[symex.choose(len(versions))]
+                body = {} if method == 'PUT' else None
+                r = app.call(method, url, body, version=hv)
+                got = r.headers.getall('openstack-api-version')
+                what = '%s %s at %s (request %d of the sequence)' % (
+                    method, url.split('?')[0], hv, step + 1)
+                if got != ['placement ' + want]:
+                    runner.violation(
+                        ctx, 'version-header', '%s: status %d, '
+                        'openstack-api-version values %r, expected exactly '
+                        '[placement %s]' % (what, r.status, got, want),
+                        sig='%s %s' % (method, url.split('?')[0]))
+                vary = ','.join(r.headers.getall('vary')).lower()
+                if 'openstack-api-version' not in vary:
+                    runner.violation(ctx, 'vary-header', '%s: status %d, '
+                                     'Vary %r' % (what, r.status, vary),
+                                     sig='%s %s' % (method,
+                                                    url.split('?')[0]))
+                if r.status >= 500:
+                    runner.violation(ctx, 'no-5xx', '%s: %d' % (
+                        what, r.status))
+            ctx.data['obligations'] = ctx.data.get('obligations', 0) + 4
+            ctx.data['discharged'] = ctx.data.get('discharged', 0) + 4 - \
+                len(ctx.data.get('violations', []))
+            return finish(ctx, 'headers')
+    return Family('version-header-sequences', path, bounds=dict(
+        requests=len(kinds), versions=[v[0] for v in versions],
+        sequence='2 requests in one process, every combination'))
+
+
 def families(tier):
     n = len(FEATURES)
     step = 18
     return [fam_features(i, min(n, i + step)) for i in range(0, n, step)] + \
-        [fam_routes(), fam_negotiation()]
+        [fam_routes(), fam_negotiation(), fam_version_header()]
 
 
 if __name__ == '__main__':
